@@ -1078,8 +1078,7 @@ func exec(e *lp.Exec) {
 			}
 			// deadlines are real time: wait for the close inside the op, so that nothing else can race with the timer
 			cause := "-"
-			st := ci.c.VerifState()
-			if !was && (st.RTimer || st.WTimer) {
+			if !was { // a deadline was just armed on an open conn (it may even have fired already): it closes the conn
 				s.waitClosed(ci)
 				if s.isClosed(ci) {
 					_, cerr := ci.c.VerifCloseState()
